@@ -200,7 +200,7 @@ func verifSpecNonIdempotentFunc(name Identifier) bool { return name.equal("uuid"
 //@   modifies nothing
 
 //@ loop parser.parseIdentifiers #1
-//@   invariant inv(l) && l.data == old(l.data) && l.pe == old(l.pe) && l.p >= old(l.p)
+//@   invariant inv(l) && l.data == old(l.data) && l.pe == old(l.pe) && l.p >= old(l.p) && (t == old(t) || old(t) == tkIdentifier)
 //@   decreases l.pe - l.p, ite(t == tkEOF, 0, 1)
 //@ func parser.parseIdentifiers [C06]
 //@   requires l != nil && inv(l)
